@@ -332,7 +332,7 @@ pub fn build_world(seed: u64, idx: u64, out: &mut RunOut) -> World {
   }
   let dcfg = DocCfg::swarm(&mut rk);
   let enc = EncCfg::swarm(&mut rk);
-  let source = rk.weighted(&[4, 8, 3, 2, 1, 1, 1, 1, 2]);
+  let source = rk.weighted(&[4, 8, 3, 2, 1, 1, 1, 1, 2, 1]);
   match source {
     0 => {
       // valid data at rest: corpus
@@ -400,6 +400,37 @@ pub fn build_world(seed: u64, idx: u64, out: &mut RunOut) -> World {
       w.csv = Some(to_csv(&gen_csv_doc(&mut rw, &dcfg), &mut rw).into_bytes());
       w.origin = "grammar".into();
       out.probe("src_grammar");
+    }
+    9 => {
+      // hostile CBOR: a well-formed item written with every encoding liberty (indefinite strings with chunks,
+      // indefinite arrays / maps, non-minimal heads) in which one or two heads announce a hostile length
+      // (2^k - 1, 2^k, 2^k + 1, more than the remaining input) - against a permissive schema, so that both
+      // the decoder and the validator meet it
+      let mut ecfg = EncCfg::swarm(&mut rk);
+      ecfg.indefinite = true;
+      ecfg.chunk_strings = true;
+      let doc = gen_doc(&mut rw, &DocCfg { cbor_only: true, long_strings: rk.coin(), ..dcfg.clone() }, 0);
+      let mut b = Vec::new();
+      to_cbor(&doc, &mut b, &ecfg, &mut rw);
+      let mut log = Vec::new();
+      for _ in 0..rf.range(1, 2) {
+        let heads = faults::cbor_heads(&b);
+        if heads.is_empty() {
+          break;
+        }
+        let h = *rf.pick(&heads);
+        let f = if rf.chance(3, 4) { faults::Fault::HostileLen(h, faults::hostile_len_value(&mut rf), rf.coin()) } else { faults::Fault::HostileLen(h, (b.len() - h) as u64 + rf.below(3) as u64, false) };
+        out.fault(f.kind());
+        log.push(f.describe());
+        b = f.apply(&b);
+      }
+      w.schema = (*rw.pick(&["root = any\n", "root = [* any] / { * any => any } / bstr / tstr\n", "root = bstr .cbor any / any\n", "root = { * tstr => any }\n"])).to_string().into_bytes();
+      w.json = Some(to_json(&doc).into_bytes());
+      w.cbor = Some(b);
+      w.csv = Some("1,2\n".to_string().into_bytes());
+      w.faults = log;
+      w.origin = "hostile-cbor".into();
+      out.probe("src_hostile_cbor");
     }
     8 => {
       // every control operator with plausible and awkward controllers against non-ASCII / boundary values
@@ -472,7 +503,7 @@ pub fn build_world(seed: u64, idx: u64, out: &mut RunOut) -> World {
     }
   }
   // faults on the data at rest
-  if source != 4 && source != 5 && source != 6 && source != 7 && rk.chance(2, 3) {
+  if source != 4 && source != 5 && source != 6 && source != 7 && source != 8 && source != 9 && rk.chance(2, 3) {
     let nf = rf.range(1, 3);
     let which = rf.below(4);
     let mut log = Vec::new();
